@@ -74,6 +74,9 @@ type boundBuiltin struct {
 }
 
 func (o *builtinObj) call(in *Interp, fr *frame, method string, args []Value) Value {
+	if o.kind == "noop" {
+		return nil
+	}
 	if o.kind == "fileinfo" {
 		return fileInfoCall(in, o, method)
 	}
